@@ -102,9 +102,10 @@ def encode_sequence(content, error=None, version=None, mode=None, mask=None,
         segs.add_segment(make_segment(chunk, mode=mode, encoding=encoding))
         return segs
 
-    def divide_into_chunks(data, num):
-        k, m = divmod(len(data), num)
-        return [data[i * k + min(i, m):(i + 1) * k + min(i + 1, m)] for i in range(num)]
+    def divide_into_chunks(data, num, unit=1):
+        # unit: Number of bytes which represent a character
+        k, m = divmod(len(data) // unit, num)
+        return [data[(i * k + min(i, m)) * unit:((i + 1) * k + min(i + 1, m)) * unit] for i in range(num)]
 
     def calc_qrcode_bit_length(char_count, ver_range, mode, encoding=None,
                                is_eci=False, is_sa=False):
@@ -131,11 +132,10 @@ def encode_sequence(content, error=None, version=None, mode=None, mask=None,
             bits += char_count * 13
         return overhead + bits
 
-    def number_of_symbols_by_version(content, version, error, mode):
+    def number_of_symbols_by_version(length, version, error, mode):
         """\
         Returns the number of symbols for the provided version.
         """
-        length = len(content)
         ver_range = version_range(version)
         bit_length = calc_qrcode_bit_length(length, ver_range, mode, encoding,
                                             is_eci=eci, is_sa=True)
@@ -178,17 +178,20 @@ def encode_sequence(content, error=None, version=None, mode=None, mask=None,
         raise ValueError('This function cannot handle more than one mode (yet). Sorry.')
     mode = segments.modes[0]  # CHANGE iff more than one mode is supported!
     # Creating one QR code failed or max_no is not None
-    if mode == consts.MODE_NUMERIC:
-        content = str(content)
-    if symbol_count is not None and len(content) < symbol_count:
+    # The symbols carry consecutive chunks of the message bytes and the parity
+    # is calculated over these bytes: Convert the content only once
+    content, _, encoding = data_to_bytes(content, encoding if mode != consts.MODE_HANZI else consts.HANZI_ENCODING)
+    unit = 2 if mode in (consts.MODE_KANJI, consts.MODE_HANZI) else 1
+    char_count = len(content) // unit
+    if symbol_count is not None and char_count < symbol_count:
         raise ValueError(f'The content is not long enough to be divided into {symbol_count} symbols')
     sa_parity_data = calc_structured_append_parity(content)
     num_symbols = symbol_count or 16
     if version is not None:
-        num_symbols = number_of_symbols_by_version(content, version, error, mode)
+        num_symbols = number_of_symbols_by_version(char_count, version, error, mode)
     if num_symbols > 16:
         raise DataOverflowError(f'The data does not fit into Structured Append version {version}')
-    chunks = divide_into_chunks(content, num_symbols)
+    chunks = divide_into_chunks(content, num_symbols, unit)
     if symbol_count is not None:
         segments = one_item_segments(max(chunks, key=len), mode)
         version = find_version(segments, error, eci=eci, micro=False, is_sa=True)
@@ -1430,6 +1433,8 @@ def calc_structured_append_parity(content):
     :param str content: The content.
     :rtype: int
     """
+    if isinstance(content, bytes):
+        return reduce(xor, content, 0)
     if not isinstance(content, str):
         content = str(content)
     try:
